@@ -282,6 +282,24 @@ def union(ctx):
                     empty = True
                 if isinstance(t, ast.UnaryOp) and isinstance(t.op, ast.Not) and isinstance(t.operand, ast.Name):
                     empty = True
+        if not empty:
+            # the other spelling: the union is computed under a non-empty test and None is returned otherwise
+            from ..flow import dominated
+
+            def nonempty(test, positive):
+                if isinstance(test, ast.Compare) and len(test.ops) == 1 and isinstance(test.left, ast.Call) and call_name(test.left) == "len" \
+                        and isinstance(test.comparators[0], ast.Constant) and test.comparators[0].value == 0:
+                    if isinstance(test.ops[0], ast.Eq):
+                        return not positive
+                    if isinstance(test.ops[0], (ast.NotEq, ast.Gt)):
+                        return positive
+                if isinstance(test, ast.Name):
+                    return positive
+                return False
+
+            unions = [c for c in ast.walk(fn) if isinstance(c, ast.Call) and call_name(c) == "zip" and any(isinstance(a, ast.Starred) for a in c.args)]
+            returns_none = any(isinstance(r, ast.Return) and (r.value is None or (isinstance(r.value, ast.Constant) and r.value.value is None)) for r in ast.walk(fn))
+            empty = bool(unions) and all(dominated(u, fn, nonempty) for u in unions) and returns_none
         fwd = [c for c in ast.walk(fn) if isinstance(c, ast.Call) and isinstance(c.func, ast.Attribute) and c.func.attr == "bbox"]
         kw = {k.arg: ast.unparse(k.value) for k in fwd[0].keywords} if fwd else {}
         ctx.ob("R08.3", "%s[skips empty, forwards flags]" % qual, skip_none and empty and kw == {"transformed": "transformed", "with_stroke": "with_stroke"},
@@ -585,7 +603,14 @@ def arc_candidates(ctx):
     h = inv[0]
     a, k = [x.arg for x in h.args.args][:2]
     ret = [s for s in h.body if isinstance(s, ast.Return)][0]
-    got = Alg(atom_map={"self.theta": "TH", "self.delta": "DL"}).ev(ret.value)
+    alg_ = Alg(atom_map={"self.theta": "TH", "self.delta": "DL"})
+    for st_ in h.body:
+        if isinstance(st_, ast.Assign):
+            try:
+                alg_.assign(st_)  # explanatory temporaries of the helper
+            except Uninterpreted:
+                pass
+    got = alg_.ev(ret.value)
     want = ((atom(a) + atom("pi") * atom(k)) * const(360) / (const(2) * atom("pi")) - atom("TH")) / atom("DL")
     ctx.ob("R08.5", "Arc.bbox[candidate parameter]", got == want, str(got), h.lineno,
            "a candidate angle ang + k half-turns maps to the curve parameter ((ang + k pi) in degrees - theta) / delta")
